@@ -131,6 +131,9 @@ def judge_trusted(case, impl, model):
         m_tru = S.res_same(cls, model["trusted"], tru)
         if m_tru and "exception class differs" in m_tru:
             m_tru = None       # two raising entries: the model raises in field order, the code in document order
+        if m_tru and "model raises KeyError" in m_tru and "ok" not in (reg or {}):
+            m_tru = None       # a document the regular path rejects: the enum-mapping step knows the whole enum class,
+                               # the model only the member names the field allows
         if m_tru:
             msgs.append("trusted deserialize: " + m_tru)
     if mapper_free and in_scope and not offpath and not set_of_struct and reg and "ok" in reg:
@@ -353,9 +356,61 @@ def judge_fast(case, impl, model):
     return ("; ".join(msgs)[:1500] if msgs else None), fails
 
 
+def judge_enumvalue(case, impl, model):
+    """Enum fields by name / by value over enum classes of every kind: the statement on the real code only"""
+    fails = []
+    sites = sorted({f["site"] + ((":by-value" if f.get("byValue") else ":by-name") if f["site"] in S.ENUM_SITES else "")
+                    for f in case["fields"] if f["site"] != "int"})
+    has_const = any(f["site"].startswith("const") for f in case["fields"])
+    by_value_direct = any(f["site"] in ("field", "optional", "optionalRev") and f.get("byValue") for f in case["fields"])
+    set_fields = {f["name"] for f in case["fields"] if f["site"] == "set"}
+    reg, tru = impl.get("regular", {}), impl.get("trusted", {})
+    v = impl.get("verdict")
+    what = None
+    if "ok" in reg and v in ("flat", "nested"):
+        if "ok" not in tru:
+            what = "trusted-raises"
+        elif impl.get("eq") != [True, True]:
+            what = "not-equal"
+        elif not impl.get("ser_same"):
+            what = "serialization-differs"
+    elif "ok" in reg and v == "no" and ("ok" not in tru or impl.get("eq") != [True, True]):
+        what = "ineligible-flag-changes"
+    if what:
+        supplied = {n for n, _ in case["members"]}
+        direct_hit = any(f["site"] in ("field", "optional", "optionalRev") and f.get("byValue") and f["name"] in supplied
+                         for f in case["fields"])
+        key = "crash:enum-by-value" if (what == "trusted-raises" and direct_hit and tru.get("err") == "KeyError") \
+            else f"enum-kinds:{what}:" + "+".join(sites)[:80]
+        fails.append((key, f"Enum fields {sites} over {case['enumKinds']}: {what}: doc={impl.get('doc')} regular={reg} trusted={tru}"))
+    if "ftd" in impl:
+        w2 = None
+        if "ok" not in impl["ftd"]:
+            w2 = "trusted-raises"
+        elif impl.get("ftd_eq") != [True, True]:
+            w2 = "not-equal"
+        elif not impl.get("ftd_ser_same"):
+            w2 = "serialization-differs"
+        if w2:
+            only_consts = has_const and w2 != "trusted-raises" and impl.get("ftd_only_consts") is True
+            key = "constants-not-set:from-trusted-data" if only_consts else f"probe:from-trusted:{w2}:" + "+".join(sites)[:80]
+            fails.append((key, f"from_trusted_data(None, **kw) vs the validated constructor, fields {sites}: {w2}: {impl.get('ftd')}"))
+    if impl.get("regular_ser_ok") and impl.get("fast_same") is False:
+        site_of = {f["name"]: f["site"] for f in case["fields"]}
+        diff_sites = {site_of.get(k, "?") for k in impl.get("fast_diff_keys") or ["?"]}
+        fkeys = [{"constEnum": "fast:constant-enum-raw", "decimal": "fast:decimal-raw"}.get(
+                     st, "enum-kinds:fast-differs:" + "+".join(sites)[:80]) for st in sorted(diff_sites)]
+        for fkey in sorted(set(fkeys)):
+            fails.append((fkey,
+                          f"fast serialize() differs at keys {impl.get('fast_diff_keys')} for fields {sites} over {case['enumKinds']}: "
+                          f"regular={impl.get('fast_regular')} fast={impl.get('fast')}"))
+    return None, fails
+
+
 def judge(case, impl, model):
     if "unbuildable" in impl:
         return None, []
     if "abstraction_mismatch" in impl:
         return "dump(build(decl)) != decl: " + json.dumps(impl["abstraction_mismatch"])[:600], []
-    return {"trusted": judge_trusted, "construct": judge_construct, "fast": judge_fast}[case["mode"]](case, impl, model)
+    return {"trusted": judge_trusted, "construct": judge_construct, "fast": judge_fast,
+            "enumvalue": judge_enumvalue}[case["mode"]](case, impl, model)
